@@ -30,6 +30,9 @@ ObsStatus(c, n) == c.st
 INSTANCE TableProps WITH LCP <- LCP160, RStatus <- ObsStatus
 TS == INSTANCE TokenStore WITH ROT <- 600000
 PS == INSTANCE PeerStore WITH CAP <- 500, TTL <- 86400000
+\* the bootstrap worker's timing model; only its constant-level operators (Backoff) are used here
+BS == INSTANCE Bootstrap WITH CAP <- 9, NCONTACTS <- 0, ROUTERS <- FALSE, GOODFOUND <- 0, BUCKET_MS <- 0, MAXATTEMPTS <- 0,
+                              now <- 0, pc <- "", attempt <- 0, upAt <- 0, bootAt <- 0, tries <- 0
 LC == INSTANCE LookupCore WITH Closer <- Closer160, ALPHA <- 4, BETA <- 3, ANN <- 8, MAXC <- 8
 
 VARIABLES l, S, G
@@ -53,7 +56,7 @@ NodeInit(e) ==
      lk |-> <<>>, pendSearch |-> <<>>, sidAid |-> <<>>, closed |-> <<>>, yields |-> <<>>, started |-> <<>>,
      rounds |-> <<>>, succ |-> <<>>,
      answered |-> FALSE, waits |-> <<>>, qsent |-> 0, started_at |-> now, bootstate |-> "AwaitStart",
-     annClosed |-> <<>>, lastSentTo |-> <<>>, samples |-> <<>>, lastAns |-> <<>>, lastNamed |-> <<>>, qsince |-> <<>>, admitted |-> {}, mechn |-> 0, raid |-> "", cursor |-> -1, bphase |-> [b |-> -1, list |-> <<>>, i |-> 0], bootn |-> 0]
+     annClosed |-> <<>>, lastSentTo |-> <<>>, samples |-> <<>>, lastAns |-> <<>>, lastNamed |-> <<>>, qsince |-> <<>>, admitted |-> {}, mechn |-> 0, raid |-> "", cursor |-> -1, bphase |-> [b |-> -1, list |-> <<>>, i |-> 0], bootn |-> 0, battempt |-> 0, bsince |-> 0]
 
 Init == l = 1 /\ S = <<>> /\ G = [universe |-> <<>>, plan |-> <<>>, coop |-> FALSE, proj |-> FALSE, twins |-> <<>>, responsive |-> <<>>, searching |-> <<>>]
 
@@ -613,8 +616,22 @@ WorkerTable(e) ==
     LET nd == Nd(e)  post == ApplyDiff(nd.t, e.ch) IN
     /\ (Len(e.ch[2]) > 0 => TableChecks(nd, post, l))
     /\ (e.ev = "BootState" => MDrift("bootstrap-bucket-phase-batch-complete", l, nd.bphase.i = Len(nd.bphase.list)))
+    \* the worker's state machine (Bootstrap.tla): its edges, the back-off 2^min(attempt+1, 9) s after a failed attempt, the 5 s
+    \* table check while bootstrapped -- compared as DRIFT only
+    /\ (e.ev = "BootState" =>
+            /\ MDrift("bootstrap-state-machine-edge", l,
+                      /\ e.from = nd.bootstate
+                      /\ <<e.from, e.to>> \in {<<"AwaitStart", "InitialContact">>, <<"AwaitStart", "Bootstrapped">>, <<"AwaitStart", "IdleBeforeRebootstrap">>,
+                                               <<"InitialContact", "IdleBeforeRebootstrap">>, <<"InitialContact", "Bootstrapping">>,
+                                               <<"Bootstrapping", "Bootstrapped">>, <<"Bootstrapping", "IdleBeforeRebootstrap">>,
+                                               <<"Bootstrapped", "InitialContact">>, <<"IdleBeforeRebootstrap", "InitialContact">>})
+            /\ (e.from = "IdleBeforeRebootstrap" => MDrift("bootstrap-back-off", l, now - nd.bsince = BS!Backoff(nd.battempt)))
+            /\ (e.from = "Bootstrapped" => MDrift("rebootstrap-decided-at-a-5s-table-check", l, now > nd.bsince /\ (now - nd.bsince) % 5000 = 0)))
     /\ Upd(e, [nd EXCEPT !.t = post, !.bootstate = IF e.ev = "BootState" THEN e.to ELSE @,
-                         !.bphase = IF e.ev = "BootState" THEN [b |-> -1, list |-> <<>>, i |-> 0] ELSE @])
+                         !.bphase = IF e.ev = "BootState" THEN [b |-> -1, list |-> <<>>, i |-> 0] ELSE @,
+                         !.bsince = IF e.ev = "BootState" THEN now ELSE @,
+                         !.battempt = IF e.ev # "BootState" THEN @ ELSE IF e.to = "Bootstrapped" THEN 0
+                                      ELSE IF e.from = "IdleBeforeRebootstrap" THEN @ + 1 ELSE @])
     /\ UNCHANGED G
 
 Step(e) ==
